@@ -53,14 +53,14 @@ HEADER = ("From Aqua Require Import Base Json Air Trace Handler Values Scalars L
 
 
 def gen_cases(rng, tier, escalate=False):
-    n = {"quick": 30, "thorough": 420}[tier] * (3 if escalate else 1)
+    n = {"quick": 30, "thorough": 260}[tier] * (3 if escalate else 1)
     cases = []
     for k in range(n):
         streams = rng.random() < 0.5
         prof = airgen.Profile(peers=rng.choice([3, 3, 4]), depth=rng.choice([3, 4, 4, 5]), streams=streams, canon=streams,
-                              stream_folds=streams and rng.random() < 0.6, last_error=rng.random() < 0.2)
+                              stream_folds=streams and rng.random() < 0.6)
         c = c19gen.gen_case(rng, prof, n_ops=rng.choice([4, 8, 14, 24]))
-        c["probe_steps"] = sorted(rng.sample(range(0, 18), 9 if tier == "quick" else 10))
+        c["probe_steps"] = sorted(rng.sample(range(0, 18), 9 if tier == "quick" else 8))
         cases.append(c)
     return cases
 
